@@ -448,6 +448,9 @@ func (g *muxGen) payloadSize() int {
 		if r.Chance(1, 3) {
 			return r.Range(65520, 65560)
 		}
+		if g.maxData > 20000 && !r.Chance(1, 8) {
+			return r.Range(1, 20000)
+		}
 		return r.Range(1, g.maxData)
 	case 9, 10:
 		return r.Range(1, 3000)
